@@ -830,6 +830,17 @@ Definition dispatch_ettdb (sinbits : Z -> Z) (name : string) (a : list tok) : op
               | Some i => if Z.abs (i - J2000_NS) <=? SPAN_10K_YEARS_NS then [TRange (v - 20) (v + 20)] else nospec
               | None => nospec end
             else nospec)
+  (* C12 with an ET / TDB operand: the order of instants more than 100 ns apart *)
+  | "ecmpf"%string, [TZ c1; TZ n1; TZ t1; TZ c2; TZ n2; TZ t2] =>
+      let t1 := norm_ts t1 in let t2 := norm_ts t2 in
+      let inst := fun t v => if is_float_id t then
+                               (if Z.abs v <=? SPAN_10K_YEARS_NS then Some (tai_of_et_sc (delta_of t) v / NS_SC) else None)
+                             else sinstant t v in
+      Some ([tcmp (epoch_cmp_all sin64 (mk_epoch c1 n1 t1) (mk_epoch c2 n2 t2))],
+            if t1 =? t2 then [tcmp (Z.compare (pval c1 n1) (pval c2 n2))]
+            else match inst t1 (pval c1 n1), inst t2 (pval c2 n2) with
+                 | Some i, Some j => if 100 <? Z.abs (i - j) then [tcmp (Z.compare i j)] else nospec
+                 | _, _ => nospec end)
   | "ordf"%string, [TZ c1; TZ n1; TZ c2; TZ n2; TZ t1; TZ t2] =>
       let t1 := norm_ts t1 in let t2 := norm_ts t2 in let v1 := pval c1 n1 in let v2 := pval c2 n2 in
       let x := val (dur (conv (mk_epoch c1 n1 t1) t2)) in let y := val (dur (conv (mk_epoch c2 n2 t1) t2)) in
